@@ -743,9 +743,11 @@ def _obs_equal(a, b):
   if a is None and isinstance(b, ConcElem): return True       # element observations: routing is proved, not compared
   if isinstance(a, (list, tuple)) and isinstance(b, (list, tuple, )):
     return len(a) == len(b) and all(_obs_equal(x, y) for x, y in zip(a, b))
-  if isinstance(b, complex) and isinstance(a, (list, tuple)):
-    return False
-  if isinstance(a, tuple) and isinstance(b, complex):
+  if isinstance(a, (list, tuple)) and len(a) == 2 and isinstance(b, (complex, float, int)) and \
+     not isinstance(a[0], (list, tuple)):
+    a = complex(float(a[0]), float(a[1]))
+  if isinstance(a, (list, tuple)) and len(a) == 2 and isinstance(b, (complex, float, int)) and \
+     not isinstance(a[0], (list, tuple)):
     a = complex(float(a[0]), float(a[1]))
   if isinstance(a, (float, complex)) or isinstance(b, (float, complex)):
     try:
